@@ -7,6 +7,7 @@
 extern "C" {
 #include "isal_crypto_api.h"
 #include "aes_gcm.h"
+#include <sys/time.h>
 #include "aes_cbc.h"
 #include "aes_xts.h"
 #include "aes_keyexp.h"
@@ -315,6 +316,8 @@ struct FipsRaceSim : Sim {
                 p.cfg["tasks"] = n;
                 p.cfg["verdict"] = g.chance(1, 2) ? 0 : 1 + (int) g.below(3); // 0 pass, 1 aes fails, 2 sha fails, 3 both
                 p.cfg["real"] = g.chance(1, 20) ? 1 : 0;
+                // real self-tests run on the family a CPU would bind: for the three gated hash algorithms a seeded family instead of the host's
+                p.cfg["bind_fam"] = (int64_t) g.below(1 << 12);
                 p.cfg["policy"] = (int) g.below(3); // 0 uniform, 1 pct, 2 uniform with bursts
                 p.cfg["yields"] = (int) g.below(5);
                 p.cfg["prio_seed"] = (int64_t) g.below(1 << 30);
@@ -460,6 +463,41 @@ struct FipsRaceSim : Sim {
                 (void) spin_flag;
                 *g_status = ST_NOT_DONE;
                 arm_interposers(true);
+                // (real self-tests only) bind the hash managers the self-tests use to a seeded family
+                struct Rebind {
+                        std::vector<std::pair<void **, void *>> saved;
+                        ~Rebind()
+                        {
+                                for (auto &kv : saved)
+                                        *kv.first = kv.second;
+                        }
+                } rebind;
+                if (real && !generic) {
+                        static const char *algs[3] = { "sha1", "sha256", "sha512" };
+                        static const std::vector<std::string> fams[3] = { { "base", "sse", "sse_ni", "avx", "avx2", "avx512", "avx512_ni" },
+                                                                         { "base", "sse", "sse_ni", "avx", "avx2", "avx512", "avx512_ni" },
+                                                                         { "base", "sse", "sb_sse4", "avx", "avx2", "avx512" } };
+                        uint64_t bf = (uint64_t) p.get("bind_fam");
+                        for (int a = 0; a < 3; a++) {
+                                const std::string &fam = fams[a][(bf >> (4 * a)) % fams[a].size()];
+                                for (const char *fn : { "init", "submit", "flush" }) {
+                                        void **slot = (void **) libsym(strfmt("_%s_ctx_mgr_%s_dispatched", algs[a], fn).c_str(), false);
+                                        void *impl = libsym(strfmt("_%s_ctx_mgr_%s_%s", algs[a], fn, fam.c_str()).c_str(), false);
+                                        if (slot && impl) {
+                                                rebind.saved.emplace_back(slot, *slot);
+                                                *slot = impl;
+                                        }
+                                }
+                                r.cov.hit(strfmt("probe_real_self_tests_on_%s_%s", algs[a], fam.c_str()));
+                        }
+                }
+                // a task that does not reach its next scheduling point within 10 s of CPU time is cut off there (liveness)
+                static bool step_hung;
+                step_hung = false;
+                g_step_hang_hook = []() {
+                        step_hung = true;
+                        self->sched.yield(0xdead);
+                };
                 std::vector<std::vector<int>> rcs(n);
                 std::vector<bool> late(n);
                 std::vector<int> kinds(n), ncalls(n);
@@ -576,7 +614,22 @@ struct FipsRaceSim : Sim {
                                 pick = run[rr++ % run.size()]; // deterministic fair fallback
                         }
                         last_was_spin = false;
-                        sched.step(pick);
+                        {
+                                struct itimerval it;
+                                memset(&it, 0, sizeof it);
+                                it.it_value.tv_sec = 10;
+                                setitimer(ITIMER_VIRTUAL, &it, nullptr);
+                                sched.step(pick);
+                                memset(&it, 0, sizeof it);
+                                setitimer(ITIMER_VIRTUAL, &it, nullptr);
+                        }
+                        if (step_hung) {
+                                g_step_hang_hook = nullptr;
+                                e.violation("C17", "liveness", std::string("C17/liveness/no-progress/") + (generic ? "generic_c11" : "asm") + (real ? "/real" : "/injected"),
+                                            strfmt("task %d did not reach a scheduling point within 10 s of CPU time (status %u): a thread inside the self-tests or the wait loop "
+                                                   "never returns",
+                                                   pick, (unsigned) *g_status));
+                        }
                         steps++;
                         r.steps++;
                         if (last_was_spin && policy == 1)
@@ -598,6 +651,7 @@ struct FipsRaceSim : Sim {
                         }
                 }
                 g_sched_hook = nullptr;
+                g_step_hang_hook = nullptr;
                 g_rmw_gap_hook = nullptr;
                 g_generic_hook = nullptr;
                 g_kernel_hook = nullptr;
@@ -1022,6 +1076,7 @@ void FipsGateSim::execute(const Plan &p, Env &e, RunResult &r)
 {
         if (entries.empty())
                 return;
+        e.call_cpu_limit_s = 30; // a gated call that never returns (self-tests stuck) is reported, not waited for
         kat_bind();
         kat_target = (int) (p.get("kat_target") % 6);
         sha_fail_value = p.get("sha_fail_value", 1) < 0 ? -1 : 1;
